@@ -280,3 +280,126 @@ def synthetic(rng, n):
         elif r < 0.85: out.append(motif_promo(rng))
         else: out.append(motif_checks(rng))
     return out
+
+
+# ---- mate-in-one candidates of the rare move classes (C04): promotions / capture-promotions, castling, en passant,
+#      discovered and double checks.  Most candidates contain no mate; callers filter with a solver.
+def _cover(rng, board, white, targets, n):
+    """drop up to n heavy pieces of `white` on squares attacking/near the target squares"""
+    for _ in range(n):
+        t = rng.choice(targets)
+        tx, ty = t % 8, t // 8
+        pc = rng.choice("QRRBN")
+        if pc == "N":
+            dx, dy = rng.choice([(1, 2), (2, 1), (-1, 2), (-2, 1), (1, -2), (2, -1), (-1, -2), (-2, -1)]); x, y = tx + dx, ty + dy
+        else:
+            dirs = [(0, 1), (0, -1), (1, 0), (-1, 0)] if pc == "R" else [(1, 1), (-1, 1), (1, -1), (-1, -1)] if pc == "B" else [(0, 1), (1, 0), (1, 1), (-1, 1), (1, -1), (-1, -1), (0, -1), (-1, 0)]
+            dx, dy = rng.choice(dirs); k = rng.randrange(1, 7); x, y = tx + dx * k, ty + dy * k
+        if 0 <= x < 8 and 0 <= y < 8 and board[y * 8 + x] is None:
+            board[y * 8 + x] = pc if white else pc.lower()
+
+
+def mate1_candidates(rng, n):
+    out = []
+    for _ in range(n):
+        white = rng.random() < 0.5
+        board = [None] * 64
+        kind = rng.choice(["promo", "promo", "castle", "castle", "castle", "ep", "ep", "disc"])
+        ok, ek = ("K", "k") if white else ("k", "K")
+        last = 7 if white else 0
+        fwd = 1 if white else -1
+        if kind == "promo" and rng.random() < 0.35:
+            # the promoted piece checks THROUGH the square the pawn just left: king behind the pawn on its file (push) or on
+            # the capture diagonal (capture-promotion)
+            px = rng.randrange(8); cap = rng.choice([-1, 0, 1])
+            tx = px + cap
+            if not 0 <= tx < 8: continue
+            board[(last - fwd) * 8 + px] = "P" if white else "p"
+            if cap != 0: board[last * 8 + tx] = rng.choice("rnbq") if white else rng.choice("RNBQ")
+            k = rng.randrange(2, 5)
+            kx, ky = tx - cap * k, last - fwd * k
+            if not (0 <= kx < 8 and 0 <= ky < 8): continue
+            board[ky * 8 + kx] = ek
+            esc = [y * 8 + x for x in range(max(0, kx - 1), min(8, kx + 2)) for y in range(max(0, ky - 1), min(8, ky + 2))]
+            _cover(rng, board, white, esc, rng.randrange(2, 5))
+        elif kind == "promo":
+            kx = rng.randrange(8)
+            ky = last if rng.random() < 0.7 else last - fwd
+            board[ky * 8 + kx] = ek
+            for _ in range(rng.choice([1, 1, 2])):
+                px = max(0, min(7, kx + rng.choice([-2, -1, 0, 1, 2])))
+                s = (last - fwd) * 8 + px
+                if board[s] is None: board[s] = "P" if white else "p"
+                for cx in (px - 1, px + 1):       # something to capture while promoting
+                    if 0 <= cx < 8 and board[last * 8 + cx] is None and rng.random() < 0.5:
+                        board[last * 8 + cx] = rng.choice("rnbq") if white else rng.choice("RNBQ")
+            esc = [y * 8 + x for x in range(max(0, kx - 1), min(8, kx + 2)) for y in range(max(0, ky - 1), min(8, ky + 2))]
+            _cover(rng, board, white, esc, rng.randrange(1, 4))
+        elif kind == "castle":
+            home = 4 if white else 60
+            board[home] = ok
+            side = rng.choice(["K", "Q"])
+            board[home + 3 if side == "K" else home - 4] = "R" if white else "r"
+            fx = 5 if side == "K" else 3
+            ekx, eky = fx + rng.choice([-1, 0, 0, 1]), (rng.choice([1, 2]) if white else rng.choice([6, 5]))
+            if board[eky * 8 + ekx] is None: board[eky * 8 + ekx] = ek
+            else: continue
+            esc = [y * 8 + x for x in range(max(0, ekx - 1), min(8, ekx + 2)) for y in range(max(0, eky - 1), min(8, eky + 2))]
+            _cover(rng, board, white, esc, rng.randrange(2, 5))
+        elif kind == "ep":
+            y = 4 if white else 3
+            a = rng.randrange(0, 7); b = a + 1
+            if rng.random() < 0.5: a, b = b, a
+            board[y * 8 + a] = "P" if white else "p"; board[y * 8 + b] = "p" if white else "P"
+            ekx, eky = max(0, min(7, b + rng.choice([-2, -1, 0, 1, 2]))), y + fwd * rng.choice([1, 2])
+            if board[eky * 8 + ekx] is None: board[eky * 8 + ekx] = ek
+            esc = [yy * 8 + x for x in range(max(0, ekx - 1), min(8, ekx + 2)) for yy in range(max(0, eky - 1), min(8, eky + 2))]
+            _cover(rng, board, white, esc, rng.randrange(2, 5))
+        else:   # discovered / double check: my slider, my blocker, enemy king on one line
+            ks = rng.randrange(64); board[ks] = ek
+            kx, ky = ks % 8, ks // 8
+            dx, dy = rng.choice([(1, 0), (-1, 0), (0, 1), (0, -1), (1, 1), (1, -1), (-1, 1), (-1, -1)])
+            line = []
+            x, y = kx + dx, ky + dy
+            while 0 <= x < 8 and 0 <= y < 8: line.append(y * 8 + x); x += dx; y += dy
+            if len(line) >= 2:
+                i = rng.randrange(0, len(line) - 1); j = rng.randrange(i + 1, len(line))
+                bl = rng.choice("NBRP" if dx * dy == 0 else "NRP")
+                if bl == "P" and not 8 <= line[i] < 56: bl = "N"
+                board[line[i]] = bl if white else bl.lower()
+                sl = rng.choice("QR" if dx * dy == 0 else "QB")
+                board[line[j]] = sl if white else sl.lower()
+            esc = [yy * 8 + x for x in range(max(0, kx - 1), min(8, kx + 2)) for yy in range(max(0, ky - 1), min(8, ky + 2))]
+            _cover(rng, board, white, esc, rng.randrange(1, 4))
+        # own king somewhere harmless, a few random extras
+        if ok not in board:
+            for _ in range(30):
+                s = rng.randrange(64)
+                if board[s] is None: board[s] = ok; break
+        if ek not in board or ok not in board: continue
+        for _ in range(rng.randrange(0, 4)):
+            s = rng.randrange(8, 56)
+            if board[s] is None: board[s] = rng.choice("PpNnBb")
+        castle = "-"
+        if kind == "castle": castle = ("KQ" if white else "kq")
+        ep = "-"
+        if kind == "ep": ep = "abcdefgh"[b] + ("6" if white else "3")
+        out.append(board_to_fen(board, white, castle, ep, 0, 30))
+    return out
+
+
+def move_class(fen, mv):
+    """coarse class of a UCI move in a position: promo / promo-capture / castle / ep / capture / quiet"""
+    rows = fen.split()[0].split("/")
+    bd = {}
+    for r, row in enumerate(rows):
+        x = 0
+        for c in row:
+            if c.isdigit(): x += int(c)
+            else: bd[(x, 7 - r)] = c; x += 1
+    f = (ord(mv[0]) - 97, int(mv[1]) - 1); t = (ord(mv[2]) - 97, int(mv[3]) - 1)
+    pc = bd.get(f, "?"); tg = bd.get(t)
+    if len(mv) == 5: return "promo-capture" if tg else "promo"
+    if pc in "Kk" and abs(f[0] - t[0]) == 2: return "castle"
+    if pc in "Pp" and f[0] != t[0] and tg is None: return "ep"
+    return "capture" if tg else "quiet"
